@@ -65,12 +65,15 @@ def handleGen (f : List String) : Verdict :=
       let below := decide (n < (g.min rooted : Int))
       let m := run g n rooted ints lens
       let cl := classOf cls
+      -- the draw script replayed by the harness must be the one the model prescribes
+      let scriptOK := ints.length == g.nintsZ n rooted && lens.length == g.nlens n rooted
       if cl == "panic" || cl == "timeout" || cl == "memory" then ⟨.oracle, "crash" :: tags, "the generator crashed or did not return: " ++ cls⟩
       else if cl == "malformed" then ⟨.oracle, tags, "the returned heap is not a tree: " ++ cls⟩
       else if below then
         if cl != "err" then ⟨.oracle, tags, "a size below the minimum was not rejected"⟩
         else if !m.isErr then ⟨.tie, tags, "model does not reject"⟩
-        else if sync != "ok" then ⟨.tie, tags, "draw protocol: values were consumed before the rejection"⟩
+        else if sync != "ok" then ⟨.tie, tags, "draw protocol: the code did not consume the scripted draws before the rejection"⟩
+        else if !scriptOK then ⟨.tie, tags, "draw protocol: the harness script is not the model's"⟩
         else ⟨.pass, "rejected" :: tags, ""⟩
       else if cl == "err" then ⟨.oracle, tags, "a valid size was rejected"⟩
       else
@@ -98,6 +101,7 @@ def handleGen (f : List String) : Verdict :=
                 let exact := (eraseIds o.t).dump == (eraseIds t).dump
                 let tags := tags ++ tagIf exact "exact" ++ tagIf (lensEq o.t t) "lens-exact"
                 if sync != "ok" then ⟨.tie, tags, "draw protocol: the code did not consume the scripted draws"⟩
+                else if !scriptOK then ⟨.tie, tags, "draw protocol: the harness script is not the model's"⟩
                 else if !obsEq o.t t then ⟨.tie, tags, "model tree " ++ o.t.dump⟩
                 else if !indexReady o then ⟨.tie, tags, "model index not ready"⟩
                 else ⟨.pass, tags, ""⟩
